@@ -12,73 +12,7 @@ use vlib::refcodec::{self, FileModel, Rec};
 use vlib::run::*;
 use vlib::{ensure, fail};
 
-/// What a reader must report for the file-level record `g` (accessor view), `None` entries = not asserted.
-pub fn cmp_read(g: &Geom, got: &Geom) -> Result<(), String> {
-    if g.ty != got.ty {
-        return Err(format!("record of type {} read as {}", g.ty.name(), got.ty.name()));
-    }
-    if g.ty == Ty::Null {
-        return Ok(());
-    }
-    if g.parts.len() != got.parts.len() {
-        return Err(format!("{} parts encoded, {} read", g.parts.len(), got.parts.len()));
-    }
-    let multi = g.ty.family() != Family::Point;
-    for (i, (p, q)) in g.parts.iter().zip(&got.parts).enumerate() {
-        if p.pts.len() != q.pts.len() {
-            return Err(format!("part {}: {} vertices encoded, {} read", i, p.pts.len(), q.pts.len()));
-        }
-        match g.ty.family() {
-            Family::Multipatch => {
-                if p.kind != q.kind {
-                    return Err(format!("patch {}: kind {} encoded, {} read", i, p.kind, q.kind));
-                }
-            }
-            Family::Polygon => {
-                if let Some(a) = exact_area2(&p.pts) {
-                    if a > 0 && q.kind != OUTER {
-                        return Err(format!("ring {} is clockwise (exact sum {}) but reported as Inner", i, a));
-                    }
-                    if a < 0 && q.kind != INNER {
-                        return Err(format!("ring {} is counter-clockwise (exact sum {}) but reported as Outer", i, a));
-                    }
-                }
-            }
-            _ => {}
-        }
-        for (j, (u, v)) in p.pts.iter().zip(&q.pts).enumerate() {
-            let mut e = *u;
-            if g.ty.carries_m() {
-                e[3] = if !g.m_present {
-                    F::of(NO_DATA)
-                } else if multi {
-                    norm_m(u[3])
-                } else {
-                    u[3]
-                };
-            }
-            if e != *v {
-                return Err(format!("part {} vertex {}: expected {:?}, read {:?} (m block present: {})", i, j, e, v, g.m_present));
-            }
-        }
-    }
-    if multi {
-        let hi = if g.ty.has_z() { 6 } else { 4 };
-        for k in 0..hi {
-            if g.bbox[k] != got.bbox[k] {
-                return Err(format!("stored box[{}] = {:?}, read {:?}", k, g.bbox[k], got.bbox[k]));
-            }
-        }
-        if g.ty.carries_m() && g.m_present {
-            for k in 6..8 {
-                if g.bbox[k] != got.bbox[k] {
-                    return Err(format!("stored M range[{}] = {:?}, read {:?}", k - 6, g.bbox[k], got.bbox[k]));
-                }
-            }
-        }
-    }
-    Ok(())
-}
+pub use vlib::oracles::cmp_read;
 
 pub fn foreign_layout(m: &FileModel) -> bool {
     !m.trailing.is_empty()
@@ -244,6 +178,38 @@ impl RandomProp for Foreign {
     }
     fn cases(env: &Env) -> u64 {
         env.n(14 * 2500, 14 * 100_000)
+    }
+}
+
+pub struct ForeignLarge;
+impl Prop for ForeignLarge {
+    type Case = FileModel;
+    fn name() -> &'static str {
+        "foreign-large"
+    }
+    fn rule() -> &'static str {
+        "proptest: the foreign-layout oracle on LARGE models (130-300 records, or records with 260-330 parts, or 70-200 points per part);          non-trivial: every case"
+    }
+    fn check(m: &FileModel, ctx: &mut Ctx) -> Result<(), Fail> {
+        ctx.nontrivial();
+        Foreign::check(m, ctx)
+    }
+}
+impl RandomProp for ForeignLarge {
+    fn strategy(_env: &Env) -> BoxedStrategy<FileModel> {
+        (gen::ty14(), 0u8..3)
+            .prop_flat_map(|(ty, mode)| {
+                let (n, parts, pts) = match mode {
+                    0 => (130usize..=300, 0usize..=2, 0usize..=3),
+                    1 => (1usize..=2, 260usize..=330, 0usize..=2),
+                    _ => (1usize..=2, 1usize..=2, 70usize..=200),
+                };
+                proptest::collection::vec(gen::fgeom_sized(ty, parts, pts), n).prop_map(move |geoms| FileModel::simple(ty, geoms))
+            })
+            .boxed()
+    }
+    fn cases(env: &Env) -> u64 {
+        env.n(14 * 6, 14 * 300)
     }
 }
 
